@@ -173,3 +173,32 @@ func H_C02_tonumber() {
 	diffSearch("to_number(a)", map[string]any{"a": s}, false)
 	diffSearch("to_number(a) == `1`", map[string]any{"a": s}, false)
 }
+
+// H_C02_variadic: merge, not_null and zip with 1..9 arguments (argument lists
+// longer than any small fixed-size buffer), the arguments cycling through three
+// lazily typed members.
+func H_C02_variadic() {
+	vrtSpec(2, 2, 1, "x,y", smASCII, nfInt, 0)
+	vrtNumRange(0, 2)
+	fn := []string{"merge", "not_null", "zip"}[vrtChoose("fn", 3)]
+	n := 1 + vrtChoose("nargs", 9)
+	names := []string{"a", "b", "c"}
+	expr := fn + "("
+	for i := 0; i < n; i++ {
+		if i > 0 {
+			expr += ", "
+		}
+		expr += names[(i*2+i/3)%3]
+	}
+	expr += ")"
+	vrtNote("template:" + fn + " with 1..9 arguments")
+	u := uNil | uObj
+	switch fn {
+	case "zip":
+		u = uArr | uNil
+	case "not_null":
+		u = uNil | uJNum | uStr
+	}
+	doc := map[string]any{"a": vrtDoc("a", 1, u, uJNum|uNil), "b": vrtDoc("b", 1, u, uJNum|uStr), "c": vrtDoc("c", 1, u, uJNum|uNil)}
+	diffSearch(expr, doc, false)
+}
